@@ -149,10 +149,18 @@ def run(repo: Repo, rep: Report) -> None:
              "in Literal's value-space comparison methods a Python value (`.value`) is compared with None by identity; its truthiness is never "
              "used to mean `has a value` (0, 0.0, False and '' are values)", floor=2)
     lm = tm.methods("Literal")
+    from vlib import h_c09
+    calls = h_c09.Calls(repo)
+    todo: list[tuple[str, ast.AST]] = []
     for name in ("eq", "neq", "__gt__", "__lt__", "__le__", "__ge__", "_comparable_to", "__add__", "__sub__", "__neg__", "__pos__", "__abs__", "__invert__", "toPython", "normalize"):
-        f = lm.get(name)
-        if f is None:
+        if name not in lm:
             continue
+        # (with the private methods of Literal that the method runs: the same code, cut differently)
+        for q, f in calls.private_closure(tm, "Literal." + name):
+            if q.startswith("Literal.") and not any(f is g for _, g in todo):
+                todo.append((q, f))
+    for q, f in todo:
+        name = q.split(".", 1)[1]
         rep.analysed("rdflib/term.py:Literal." + name)
         for n in own_nodes(f):
             if isinstance(n, ast.Compare) and isinstance(n.ops[0], (ast.Is, ast.IsNot)) and isinstance(n.left, ast.Attribute) and n.left.attr == "value" \
@@ -380,11 +388,13 @@ def more_rules(repo, rep, tm, xd, conv, entries, is_sub) -> None:
                    "lexicaliser present and writes INF / NaN" if ok else why, node=e)
 
 
+from vlib.core import layer as _layer  # noqa: E402
+
 _run_base = run
 
 
 def run(repo: Repo, rep: Report) -> None:  # noqa: F811
-    _run_base(repo, rep)
+    _layer(rep, _run_base, repo)
     rep.rule("C09.i-no-str-of-bytes",
              "in rdflib/term.py no one-argument str(x) is applied to an expression whose static type includes bytes: in Python 3 that is the repr \"b'...'\" and never raises, so a "
              "lexical form given as bytes must be decoded (str(x, 'utf-8') / x.decode()) - the `except UnicodeDecodeError` idiom inherited from Python 2 is dead code", floor=20)
@@ -405,8 +415,19 @@ def run(repo: Repo, rep: Report) -> None:  # noqa: F811
 _run_base2 = run
 
 
+def _each_in_its_own_layer(repo: Repo, rep: Report, *rules) -> None:
+    """every rule is a layer of its own (vlib.core.layer): a rule that loses its anchor on one equivalent view of the tree (a helper it
+    is anchored in was inlined away, say) does not take along the rules written next to it, which may need exactly that view"""
+    for r in rules:
+        _layer(rep, r, repo)
+
+
 def run(repo: Repo, rep: Report) -> None:  # noqa: F811
-    _run_base2(repo, rep)
+    _layer(rep, _run_base2, repo)
+    _each_in_its_own_layer(repo, rep, _rule_j, _rule_k, _rule_l)
+
+
+def _rule_j(repo: Repo, rep: Report) -> None:
     tm = repo.mod("rdflib.term")
     # ------------------------------------------------------------------ (j)
     rep.rule("C09.j-boolean-parser-and-checker-agree",
@@ -431,6 +452,10 @@ def run(repo: Repo, rep: Report) -> None:  # noqa: F811
         rep.ob("C09.j-boolean-parser-and-checker-agree", tm, "_parseBoolean", "%r is parsed" % (a,), ok,
                "" if ok else "%r passes the well-formedness check but is in neither accepted-value list of _parseBoolean: Literal(%r, datatype=XSD.boolean) has the value False (for b'true' / b'1': the wrong value) and is not ill-typed" % (a, a), node=pb)
 
+
+
+def _rule_k(repo: Repo, rep: Report) -> None:
+    tm = repo.mod("rdflib.term")
     # ------------------------------------------------------------------ (k)
     rep.rule("C09.k-xsd-whitespace-only",
              "the whitespace helpers of xsd:normalizedString / xsd:token (_normalise_XSD_STRING, _strip_and_collapse_whitespace) treat exactly the XSD white space characters "
@@ -455,41 +480,44 @@ def run(repo: Repo, rep: Report) -> None:  # noqa: F811
         if not found:
             raise AnalysisError("%s: no whitespace operation found" % fname)
 
+
+def _eq_functions(repo: Repo, tm):
+    """(calls, [(qualified name, def)]): Literal.eq - the public entry point of value-space equality - and the private functions of the
+    module it runs, transitively: the code of the comparison, however it is cut into functions"""
+    calls = _H.Calls(repo)
+    fns = calls.private_closure(tm, "Literal.eq")
+    if not fns:
+        raise AnalysisError("Literal.eq vanished")
+    return calls, fns
+
+
+def _rule_l(repo: Repo, rep: Report) -> None:
+    tm = repo.mod("rdflib.term")
     # ------------------------------------------------------------------ (l)
     rep.rule("C09.l-eq-with-python-durations-covers-every-duration-datatype",
-             "Literal.eq compares a literal with a Python Duration / timedelta for every datatype whose registered converter is parse_xsd_duration (xsd:duration, xsd:dayTimeDuration, "
-             "xsd:yearMonthDuration): the datatype collection tested in that branch contains them all", floor=3)
+             "Literal.eq (with the private functions it runs) compares a literal with a Python Duration / timedelta for every datatype whose registered converter is "
+             "parse_xsd_duration (xsd:duration, xsd:dayTimeDuration, xsd:yearMonthDuration): the datatype collection tested in that branch contains them all", floor=3)
     x2p = _table(tm, "XSDToPython")
     dur_types = {(_const_str(tm, k) or "").split("+")[-1] for k, v in zip(x2p.keys, x2p.values) if norm(v) == "parse_xsd_duration"}
-    eqf = tm.func("Literal.eq")
-    consts = {}
-    for st in tm.tree.body:
-        if isinstance(st, (ast.Assign, ast.AnnAssign)):
-            t = st.targets[0] if isinstance(st, ast.Assign) else st.target
-            v = getattr(st, "value", None)
-            if isinstance(t, ast.Name) and isinstance(v, (ast.Tuple, ast.List, ast.Set)):
-                consts[t.id] = v
-
-    def local(e):
-        s_ = _const_str(tm, e)
-        return (s_ or "").split("+")[-1]
     done = False
-    for n in own_nodes(eqf):
-        if isinstance(n, ast.If) and any(isinstance(c, ast.Call) and norm(c.func) == "isinstance" and ("Duration" in norm(c) or "timedelta" in norm(c)) for c in ast.walk(n)):
-            for c in ast.walk(n):
-                if isinstance(c, ast.Compare) and isinstance(c.ops[0], ast.In) and norm(c.left) == "self.datatype":
-                    coll = c.comparators[0]
-                    if isinstance(coll, ast.Name) and coll.id in consts:
-                        coll = consts[coll.id]
-                    if not isinstance(coll, (ast.Tuple, ast.List, ast.Set)):
-                        continue
-                    have = {local(e) for e in coll.elts}
-                    if not (have & dur_types):
-                        continue
-                    done = True
-                    for d in sorted(dur_types):
-                        rep.ob("C09.l-eq-with-python-durations-covers-every-duration-datatype", tm, "Literal.eq", "%s in %s" % (d, norm(c.comparators[0])[:40]), d in have,
-                               "" if d in have else "xsd:%s literals (whose value is a Duration/timedelta) are not compared with a Python duration: Literal('P1Y2M', datatype=XSD.%s).eq(Duration(years=1, months=2)) is NotImplemented" % (d, d), node=c)
+    for q, eqf in _eq_functions(repo, tm)[1]:
+        if not eqf.args.args:
+            continue
+        me = eqf.args.args[0].arg
+        for n in own_nodes(eqf):
+            if isinstance(n, ast.If) and any(isinstance(c, ast.Call) and norm(c.func) == "isinstance" and ("Duration" in norm(c) or "timedelta" in norm(c)) for c in ast.walk(n)):
+                for c in ast.walk(n):
+                    if isinstance(c, ast.Compare) and isinstance(c.ops[0], ast.In) and norm(c.left) in (me + ".datatype", me + "._datatype"):
+                        coll = _collection(tm, c.comparators[0])
+                        if coll is None:
+                            continue
+                        have = {_local(tm, e) for e in coll}
+                        if not (have & dur_types):
+                            continue
+                        done = True
+                        for d in sorted(dur_types):
+                            rep.ob("C09.l-eq-with-python-durations-covers-every-duration-datatype", tm, q, "%s in %s" % (d, norm(c.comparators[0])[:40]), d in have,
+                                   "" if d in have else "xsd:%s literals (whose value is a Duration/timedelta) are not compared with a Python duration: Literal('P1Y2M', datatype=XSD.%s).eq(Duration(years=1, months=2)) is NotImplemented" % (d, d), node=c)
     if not done:
         raise AnalysisError("Literal.eq: duration branch not found")
 
@@ -547,15 +575,53 @@ def _isinstance_test(repo, mod, test: ast.AST):
 
 def _if_chains(mod, fn: ast.AST):
     """every if/elif chain of a function as the list of its If nodes"""
-    for n in own_nodes(fn):
-        if isinstance(n, ast.If):
-            p = mod.parent.get(id(n))
-            if isinstance(p, ast.If) and len(p.orelse) == 1 and p.orelse[0] is n:
-                continue  # an elif: part of its parent's chain
-            chain = [n]
-            while len(chain[-1].orelse) == 1 and isinstance(chain[-1].orelse[0], ast.If):
-                chain.append(chain[-1].orelse[0])
-            yield chain
+    for chain, _rest in _else_chains(mod, fn):
+        yield chain
+
+
+def _else_chains(mod, fn: ast.AST):
+    """every chain of `if` statements of a function whose tests are tried one after the other, each only when the ones before it
+    failed, as (the list of its If nodes, the statements that run when all tests failed - None when control also gets past the chain
+    from one of its branches): if / elif, and - the same control flow - an `if` none of whose branches falls through followed by the
+    next statement of its block (`if a: return x` / `if b: return y` / rest)"""
+    from vlib.h_c09 import terminates
+    consumed: set[int] = set()
+    blocks = []
+    for n in [fn] + list(own_nodes(fn)):
+        for fld in ("body", "orelse", "finalbody"):
+            lst = getattr(n, fld, None)
+            if isinstance(lst, list) and lst and isinstance(lst[0], ast.stmt):
+                blocks.append((n, fld, lst))
+        for h in getattr(n, "handlers", []) or []:
+            blocks.append((h, "body", h.body))
+    blocks.sort(key=lambda b: (getattr(b[2][0], "lineno", 0), getattr(b[2][0], "col_offset", 0)))
+    for owner, fld, lst in blocks:
+        if isinstance(owner, ast.If) and fld == "orelse" and len(lst) == 1 and isinstance(lst[0], ast.If):
+            continue  # an elif: part of its parent's chain
+        for i, st in enumerate(lst):
+            if not isinstance(st, ast.If) or id(st) in consumed:
+                continue
+            chain: list[ast.If] = []
+            rest = None
+            cur, k = st, i
+            while True:
+                consumed.add(id(cur))
+                chain.append(cur)
+                while len(chain[-1].orelse) == 1 and isinstance(chain[-1].orelse[0], ast.If):
+                    chain.append(chain[-1].orelse[0])
+                if chain[-1].orelse:
+                    rest = chain[-1].orelse
+                    break
+                # no else: what follows in the block is the else part when no branch of the chain falls through
+                if not all(terminates(c.body) for c in chain):
+                    rest = None
+                    break
+                if k + 1 < len(lst) and isinstance(lst[k + 1], ast.If) and id(lst[k + 1]) not in consumed:
+                    cur, k = lst[k + 1], k + 1
+                    continue
+                rest = lst[k + 1:]
+                break
+            yield chain, rest
 
 
 def _collection(mod, e: ast.AST, depth: int = 0) -> list[ast.AST] | None:
@@ -772,25 +838,43 @@ def _rule_n(repo, rep, tm, xd, conv) -> None:
                    "as a lexical form" % (name, norm(recv), name, name, name, ", ".join(byt)), node=c)
 
 
+def _is_zero_duration(e: ast.AST) -> bool:
+    """timedelta() / timedelta(0) / Duration() / Duration(days=0, ...): a duration constructor all of whose arguments fold to 0"""
+    return isinstance(e, ast.Call) and isinstance(e.func, ast.Name) and e.func.id in ("timedelta", "Duration") \
+        and all(_fold(a) == 0 for a in e.args) and all(k.arg is not None and _fold(k.value) == 0 for k in e.keywords)
+
+
 # ------------------------------------------------------------------------------------------------------------- (o)
-def _rule_o(repo, rep, tm, xd, conv) -> None:
-    rid = "C09.o-zero-duration-form-in-lexical-space"
-    rep.rule(rid,
+def _rule_o(repo, rep, tm, xd, conv, rid="C09.o-zero-duration-form-in-lexical-space", text=None, floor=3, other_types=False) -> None:
+    """other_types=False: the Python type parse_xsd_duration builds for a duration without years and months (rule o);
+    other_types=True: the remaining Python types the converter can yield (rule w)"""
+    rep.rule(rid, text or (
              "for every datatype whose converter is parse_xsd_duration, the lexicaliser that _castPythonToLiteral selects (datatype-specific rule first, then first generic "
              "isinstance match) for the Python type parse_xsd_duration returns for a duration without years and months writes the ZERO duration - the constant forms it returns "
-             "independently of the value - inside the lexical space of that datatype: 'P0D' is no xsd:yearMonthDuration, so 'P0Y'^^xsd:yearMonthDuration must not be normalised to it", floor=3)
+             "independently of the value - inside the lexical space of that datatype: 'P0D' is no xsd:yearMonthDuration, so 'P0Y'^^xsd:yearMonthDuration must not be normalised to it"), floor=floor)
     pd = xd.func("parse_xsd_duration")
     rep.analysed("rdflib/xsd_datetime.py:parse_xsd_duration", "rdflib/xsd_datetime.py:duration_isoformat")
     zero_types: set[str] = set()
+    universe = _duration_fields(xd)
     for n in own_nodes(pd):
         if isinstance(n, ast.If):
-            zeroed = {c.left.slice.value for c in ast.walk(n.test) if isinstance(c, ast.Compare) and len(c.ops) == 1 and isinstance(c.ops[0], ast.Eq)
-                      and isinstance(c.left, ast.Subscript) and isinstance(c.left.slice, ast.Constant) and _fold(c.comparators[0]) == 0}
+            # the fields of the match the test requires to be zero: `<expression computed from exactly one field> == 0` (the field read
+            # itself, or a local bound to its converted text)
+            zeroed = set()
+            for c in ast.walk(n.test):
+                if isinstance(c, ast.Compare) and len(c.ops) == 1 and isinstance(c.ops[0], ast.Eq) and _fold(c.comparators[0]) == 0:
+                    fs = _H.fields_of(xd, pd, c.left, universe)
+                    if len(fs) == 1:
+                        zeroed |= fs
             if {"years", "months"} <= zeroed:
                 for st in n.body:
                     zero_types |= {c.func.id for c in ast.walk(st) if isinstance(c, ast.Call) and isinstance(c.func, ast.Name) and c.func.id in ("timedelta", "Duration")}
     if not zero_types:
         raise AnalysisError("parse_xsd_duration: the branch for years == 0 and months == 0 was not found")
+    if other_types:
+        zero_types = set(_produces(tm, xd, "parse_xsd_duration")) - zero_types
+        if not zero_types:
+            raise AnalysisError("parse_xsd_duration yields no Python type besides the one of the zero duration")
     spec = _table(tm, "_SpecificPythonToXSDRules")
     gen = _table(tm, "_GenericPythonToXSDRules")
     if not isinstance(spec, ast.List) or not isinstance(gen, ast.List):
@@ -821,6 +905,11 @@ def _rule_o(repo, rep, tm, xd, conv) -> None:
                 return forms(e.orelse, param, depth)
             if param is not None and isinstance(e.test, ast.UnaryOp) and isinstance(e.test.op, ast.Not) and isinstance(e.test.operand, ast.Name) and e.test.operand.id == param:
                 return forms(e.body, param, depth)
+            if param is not None and isinstance(e.test, ast.Compare) and len(e.test.ops) == 1 and isinstance(e.test.ops[0], (ast.Eq, ast.NotEq)):
+                # `param == <zero duration>` / `param != <zero duration>`: decided for the zero argument
+                sides = [e.test.left, e.test.comparators[0]]
+                if any(isinstance(x, ast.Name) and x.id == param for x in sides) and any(_is_zero_duration(x) for x in sides):
+                    return forms(e.body if isinstance(e.test.ops[0], ast.Eq) else e.orelse, param, depth)
             return forms(e.body, param, depth) | forms(e.orelse, param, depth)
         if isinstance(e, ast.Lambda):
             return forms(e.body, e.args.args[0].arg if e.args.args else None, depth)
@@ -848,7 +937,8 @@ def _rule_o(repo, rep, tm, xd, conv) -> None:
             for z in sorted(zs):
                 ok = XSD_DURATION_LEXICAL[d].fullmatch(z) is not None
                 rep.ob(rid, tm, "_castPythonToLiteral", "(%s, %s) -> %s writes %r" % (t, d, norm(lx)[:60], z), ok,
-                       "in the lexical space" if ok else "%r is not in the lexical space of xsd:%s: Literal('P0Y', datatype=XSD.%s) is normalised to an ill-formed literal" % (z, d, d), node=lx)
+                       "in the lexical space" if ok else ("%r is not in the lexical space of xsd:%s: " % (z, d)) + (("a zero %s written as xsd:%s - Literal(%s(), datatype=XSD.%s), the difference of two equal literals - is an ill-formed literal" % (t, d, t, d))
+                                                       if other_types else ("Literal('P0Y', datatype=XSD.%s) is normalised to an ill-formed literal" % d)), node=lx)
 
 
 # ------------------------------------------------------------------------------------------------------------- (p)
@@ -856,13 +946,35 @@ def _rule_p(repo, rep, tm, conv) -> None:
     rid = "C09.p-same-converter-datatypes-comparable-in-eq"
     rep.rule(rid,
              "datatypes that share one converter function in XSDToPython have values of one Python type that == compares (xsd:duration and the two datatypes derived from it, "
-             "the integer family, float/double): Literal.eq tests `dtA in C and dtB in C` for a collection C containing the whole family and compares the values, in a "
+             "the integer family, float/double): Literal.eq (or the private function it runs for two literals) tests `dtA in C and dtB in C` for a collection C containing the whole family and compares the values, in a "
              "statement placed before the `datatypes differ -> not equal / TypeError` statement; else Literal('P1D', datatype=XSD.dayTimeDuration).eq(Literal('P1D', datatype=XSD.duration)) is False", floor=15)
-    f = tm.func("Literal.eq")
-    rep.analysed("rdflib/term.py:Literal.eq")
-    if len(f.args.args) < 2:
-        raise AnalysisError("Literal.eq: signature")
-    me, other = f.args.args[0].arg, f.args.args[1].arg
+    # the comparison of two literals is the function - Literal.eq or a private function it runs - that holds the `datatypes differ`
+    # statement; the pairwise tests are looked for in that function, before that statement
+    found = []
+    for q, f in _eq_functions(repo, tm)[1]:
+        rep.analysed("rdflib/term.py:" + q)
+        for other in [a.arg for a in f.args.args[1:]]:
+            r = _rule_p_in(tm, f, f.args.args[0].arg, other)
+            if r is not None:
+                found.append((q,) + r)
+    if len(found) != 1:
+        raise AnalysisError("Literal.eq: expected one `datatypes differ` statement, found %d" % len(found))
+    q, reject, before = found[0]
+    groups: dict[str, list[str]] = {}
+    for d, cv in conv.items():
+        if cv != "None":
+            groups.setdefault(cv, []).append(d)
+    for cv, ds in sorted(groups.items()):
+        if len(ds) < 2:
+            continue
+        for d in sorted(ds):
+            ok = any(set(ds) <= s for _, s in before)
+            rep.ob(rid, tm, q, "xsd:%s comparable with the other datatypes read by %s" % (d, cv), ok,
+                   "" if ok else "no value comparison for two literals of {%s} precedes %s: literals of these datatypes with the same value are reported unequal" % (", ".join(sorted(ds)), norm(reject.test)), node=reject)
+
+
+def _rule_p_in(tm, f, me: str, other: str):
+    """(the `datatypes of me and other differ` statement of f, the pairwise value comparisons placed before it in its block); None when f has no such statement"""
 
     def owner(e) -> set[str]:
         """which operand's datatype an expression denotes ({self}, {other}); through one local assignment"""
@@ -895,32 +1007,35 @@ def _rule_p(repo, rep, tm, conv) -> None:
         if isinstance(n.test, ast.Compare) and len(n.test.ops) == 1 and isinstance(n.test.ops[0], ast.NotEq) \
                 and {frozenset(owner(n.test.left)), frozenset(owner(n.test.comparators[0]))} == {frozenset({me}), frozenset({other})}:
             reject.append(n)
+    if not reject:
+        return None
     if len(reject) != 1:
         raise AnalysisError("Literal.eq: expected one `datatypes differ` statement, found %d" % len(reject))
     blk = tm.parent.get(id(reject[0]))
     body = [x for fld in ("body", "orelse") for x in getattr(blk, fld, []) if isinstance(getattr(blk, fld, None), list)]
     pos = {id(x): i for i, x in enumerate(body)}
     before = [(n, s) for n, s in pair_ifs if id(n) in pos and pos[id(n)] < pos[id(reject[0])]]
-    groups: dict[str, list[str]] = {}
-    for d, cv in conv.items():
-        if cv != "None":
-            groups.setdefault(cv, []).append(d)
-    for cv, ds in sorted(groups.items()):
-        if len(ds) < 2:
-            continue
-        for d in sorted(ds):
-            ok = any(set(ds) <= s for _, s in before)
-            rep.ob(rid, tm, "Literal.eq", "xsd:%s comparable with the other datatypes read by %s" % (d, cv), ok,
-                   "" if ok else "no value comparison for two literals of {%s} precedes %s: literals of these datatypes with the same value are reported unequal" % (", ".join(sorted(ds)), norm(reject[0].test)), node=reject[0])
+    return reject[0], before
 
 
 # ------------------------------------------------------------------------------------------------------------- (q)
+def _duration_fields(xd) -> set[str]:
+    """the named groups of ISO8601_PERIOD_REGEX"""
+    for st in xd.tree.body:
+        if isinstance(st, ast.Assign) and isinstance(st.targets[0], ast.Name) and st.targets[0].id == "ISO8601_PERIOD_REGEX":
+            pat = "".join(c.value for c in ast.walk(st.value) if isinstance(c, ast.Constant) and isinstance(c.value, str))
+            return set(_re.findall(r"\(\?P<(\w+)>", pat))
+    raise AnalysisError("ISO8601_PERIOD_REGEX not found")
+
+
 def _rule_q(repo, rep, tm, xd) -> None:
     rid = "C09.q-fraction-field-converted-exactly"
     rep.rule(rid,
              "in parse_xsd_duration the text of a field that may carry a fraction in the XSD lexical form (XSD allows one only before 'S'; the field is found by the named group of ISO8601_PERIOD_REGEX that ends in that designator) is not converted with float() "
              "on its way to the timedelta / Duration constructor: a float keeps 53 bits, so 'PT9999999999.000001S' (a seconds field above about 8.6e9) loses its microsecond digits "
-             "and the literal is normalised to another value", floor=2)
+             "and the literal is normalised to another value. The conversions of a field are the numeric constructors its text - every read `G[k]` / `G.get(k)` whose key can be "
+             "that field where it is evaluated - is handed to first, followed through slicing, str methods, casts, local names and the functions of the package it is passed to; "
+             "a constructor argument reads a field when it is computed from it, also through local names", floor=2)
     pd = xd.func("parse_xsd_duration")
     lexpat = XSD_DURATION_LEXICAL["duration"].pattern  # XSD: only the seconds field may have a fraction
     isopat = None
@@ -933,46 +1048,30 @@ def _rule_q(repo, rep, tm, xd) -> None:
     names = {nm for nm, letter in _re.findall(r"\(\?P<(\w+)>[^()]*(?:\([^()]*\))?[^()]*?([A-Z])\)", isopat) if letter in frac_letters}
     if not frac_letters or not names:
         raise AnalysisError("no fraction-bearing field found in the duration patterns")
-    # conversions applied per field: `G[key] = conv(...)` under `key in (...)` tests inside the loop over the groups
+    universe = _duration_fields(xd)
+    calls = _H.Calls(repo)
+    # conversions applied to the text of each field
     convs: dict[str, set[str]] = {nm: set() for nm in names}
-    for loop in own_nodes(pd):
-        if not isinstance(loop, ast.For):
+    for n in own_nodes(pd):
+        if _H.key_read(n) is None:
             continue
-        keys = [x.id for x in ast.walk(loop.target) if isinstance(x, ast.Name)]
-        for a in ast.walk(loop):
-            if not (isinstance(a, ast.Assign) and isinstance(a.targets[0], ast.Subscript) and isinstance(a.targets[0].slice, ast.Name) and a.targets[0].slice.id in keys
-                    and isinstance(a.value, ast.Call) and isinstance(a.value.func, ast.Name)):
-                continue
-            key = a.targets[0].slice.id
-            for nm in names:
-                feasible = True
-                child = a
-                for p in tm_parents(xd, a, loop):
-                    if isinstance(p, ast.If) and isinstance(p.test, ast.Compare) and len(p.test.ops) == 1 and isinstance(p.test.left, ast.Name) and p.test.left.id == key \
-                            and isinstance(p.test.ops[0], (ast.In, ast.NotIn)) and isinstance(p.test.comparators[0], (ast.Tuple, ast.List, ast.Set)):
-                        member = nm in {e.value for e in p.test.comparators[0].elts if isinstance(e, ast.Constant)}
-                        truth = member if isinstance(p.test.ops[0], ast.In) else not member
-                        in_body = any(child is x for x in p.body)
-                        if truth != in_body:
-                            feasible = False
-                    child = p
-                if feasible:
-                    convs[nm].add(a.value.func.id)
-    # uses: keyword arguments of the constructor calls that read the field
+        ks = _H.feasible_keys(xd, pd, n, universe) & names
+        if not ks:
+            continue
+        cv, _ = _H.text_conversions(calls, xd, pd, n)
+        for nm in ks:
+            convs[nm] |= cv
+    # uses: keyword arguments of the constructor calls that are computed from the field
     uses = 0
     for c in own_nodes(pd):
         if isinstance(c, ast.Call) and isinstance(c.func, ast.Name) and c.func.id in ("timedelta", "Duration"):
             for kw in c.keywords:
-                e = kw.value
-                if isinstance(e, ast.Name):
-                    e = _single_def(pd, e.id) or e
-                for s in ast.walk(e):
-                    if isinstance(s, ast.Subscript) and isinstance(s.slice, ast.Constant) and s.slice.value in names:
-                        uses += 1
-                        cv = convs[s.slice.value]
-                        ok = bool(cv) and "float" not in cv
-                        rep.ob(rid, xd, "parse_xsd_duration", "%s(%s=...) reads field %r converted by %s" % (c.func.id, kw.arg, s.slice.value, "/".join(sorted(cv)) or "?"), ok,
-                               "exact" if ok else "the %r field, which carries the fraction, is converted by float(): above 2**53 microseconds (about 9e9 s) the last digits are lost" % s.slice.value, node=c)
+                for nm in sorted(_H.fields_of(xd, pd, kw.value, universe) & names):
+                    uses += 1
+                    cv = convs[nm]
+                    ok = bool(cv) and "float" not in cv
+                    rep.ob(rid, xd, "parse_xsd_duration", "%s(%s=...) reads field %r converted by %s" % (c.func.id, kw.arg, nm, "/".join(sorted(cv)) or "?"), ok,
+                           "exact" if ok else "the %r field, which carries the fraction, is converted by float(): above 2**53 microseconds (about 9e9 s) the last digits are lost" % nm, node=c)
     if not uses:
         raise AnalysisError("parse_xsd_duration: no constructor argument reads the fraction-bearing field(s) %s" % sorted(names))
 
@@ -988,15 +1087,45 @@ def tm_parents(mod, node, stop):
 def _rule_r(repo, rep, mods) -> None:
     rid = "C09.r-isinstance-chain-no-shadowed-class"
     rep.rule(rid,
-             "in every if/elif chain of isinstance tests on one subject in rdflib/term.py and rdflib/xsd_datetime.py, no class tested by a later branch is a subclass of a "
-             "class that an earlier branch tests unconditionally: that branch is dead for it (bool after int: Literal(True).eq(True) fell into the numeric branch and "
-             "returned NotImplemented)", floor=17)
+             "in every chain of isinstance tests on one subject in rdflib/term.py and rdflib/xsd_datetime.py that are tried one after the other (if / elif; an `if` whose "
+             "branches all leave the function followed by the next `if`; and, when all tests failed and the rest is `return <private function>(...)`, the chain that function "
+             "starts with, about the parameter the subject is bound to - at every call of it), no class tested by a later branch is a subclass of a class that an earlier "
+             "branch tests unconditionally: that branch is dead for it (bool after int: Literal(True).eq(True) fell into the numeric branch and returned NotImplemented)", floor=17)
+    calls = _H.Calls(repo)
     for m in mods:
+        chains = {id(fn): (q, fn, list(_else_chains(m, fn))) for q, fn in m.functions()}
+
+        def unconditional(chain):
+            out = []
+            for br in chain:
+                it = _isinstance_test(repo, m, br.test)
+                if it is not None:
+                    out.extend((it[0], t) for t, _ in it[1])
+            return out
+
+        def inherited(fn, chain, depth=0):
+            """(parameter, class) pairs that every caller of the private function fn has tested, and seen fail, before it runs fn as
+            the last alternative of a chain of its own - when `chain` is what fn starts with"""
+            nm = getattr(fn, "name", "")
+            body = [st for st in fn.body if not (isinstance(st, ast.Expr) and isinstance(st.value, ast.Constant))]
+            if depth > 3 or not nm.startswith("_") or (nm.startswith("__") and nm.endswith("__")) or not body or body[0] is not chain[0]:
+                return []
+            common = None
+            for cq, cf, call in calls.every_call_site(m, fn) or []:
+                b = calls.bind(m.qual_of(fn), fn, call)
+                here = []
+                for ch, rest in chains.get(id(cf), ("", None, []))[2]:
+                    if b is not None and rest is not None and len(rest) == 1 and isinstance(rest[0], ast.Return) and rest[0].value is call:
+                        for subj, t in inherited(cf, ch, depth + 1) + unconditional(ch):
+                            here.extend((p, t) for p, a in b.items() if norm(a) == subj and not _H.defs_of(fn, p) and not _H.defs_of(cf, subj))
+                common = here if common is None else [x for x in common if x in here]
+            return common or []
+
         for q, fn in m.functions():
-            for chain in _if_chains(m, fn):
-                if len(chain) < 2:
+            for chain, _rest in chains[id(fn)][2]:
+                seen: list[tuple[str, str]] = inherited(fn, chain)  # (subject, class) tested by earlier branches
+                if len(chain) < 2 and not seen:
                     continue
-                seen: list[tuple[str, str]] = []  # (subject, class) tested by earlier branches
                 for br in chain:
                     it = _isinstance_test(repo, m, br.test)
                     if it is None:
@@ -1017,10 +1146,14 @@ def _rule_r(repo, rep, mods) -> None:
 def _rule_s(repo, rep, tm, xd, conv) -> None:
     rid = "C09.s-eq-python-operand-covers-value-types"
     rep.rule(rid,
-             "a branch `isinstance(other, Ts)` of Literal.eq that compares self.value with the Python operand for the datatypes it tests accepts every Python type that the "
+             "a branch `isinstance(other, Ts)` of Literal.eq (or of a private function it runs) that compares self.value with the Python operand for the datatypes it tests accepts every Python type that the "
              "converters of those datatypes produce: xsd:decimal is read by Decimal, so the numeric branch takes a Decimal - else Literal(Decimal('1.5')).eq(Decimal('1.5')) is NotImplemented", floor=20)
-    f = tm.func("Literal.eq")
-    me, other = f.args.args[0].arg, f.args.args[1].arg
+    for q, f in _eq_functions(repo, tm)[1]:
+        for other in [a.arg for a in f.args.args[1:]]:
+            _rule_s_in(repo, rep, rid, tm, xd, conv, q, f, f.args.args[0].arg, other)
+
+
+def _rule_s_in(repo, rep, rid, tm, xd, conv, q, f, me, other) -> None:
     for chain in _if_chains(tm, f):
         for br in chain:
             it = _isinstance_test(repo, tm, br.test)
@@ -1040,7 +1173,7 @@ def _rule_s(repo, rep, tm, xd, conv) -> None:
                         raise AnalysisError("Literal.eq tests datatype %s, which has no converter" % d)
                     for p in _produces(tm, xd, conv[d]):
                         ok = any(_short_sub(xd, p, t) for t in ts)
-                        rep.ob(rid, tm, "Literal.eq", "xsd:%s value (%s) accepted by isinstance(%s, (%s))" % (d, p, other, ", ".join(ts)), ok,
+                        rep.ob(rid, tm, q, "xsd:%s value (%s) accepted by isinstance(%s, (%s))" % (d, p, other, ", ".join(ts)), ok,
                                "" if ok else "the value of an xsd:%s literal is a %s (converter %s), which the branch comparing values of that datatype does not accept: eq(<%s>) returns NotImplemented" % (d, p, conv[d], p), node=br)
 
 
@@ -1048,7 +1181,7 @@ _run_base3 = run
 
 
 def run(repo: Repo, rep: Report) -> None:  # noqa: F811
-    _run_base3(repo, rep)
+    _layer(rep, _run_base3, repo)
     rep.extra["explanation"] = rep.extra.get("explanation", "") + (
         " Further structural clauses: (m) Literal.__new__ re-derives the value after white-space processing of the lexical form; (n) a bytes value is lexicalised before "
         "a literal is rebuilt from value + datatype; (o) the zero duration is written inside the lexical space of each duration datatype; (p) datatypes sharing a converter "
@@ -1057,10 +1190,289 @@ def run(repo: Repo, rep: Report) -> None:  # noqa: F811
     tm = repo.mod("rdflib.term")
     xd = repo.mod("rdflib.xsd_datetime")
     conv = _conv_table(tm)
-    _rule_m(repo, rep, tm)
-    _rule_n(repo, rep, tm, xd, conv)
-    _rule_o(repo, rep, tm, xd, conv)
-    _rule_p(repo, rep, tm, conv)
-    _rule_q(repo, rep, tm, xd)
-    _rule_r(repo, rep, (tm, xd))
-    _rule_s(repo, rep, tm, xd, conv)
+    _each_in_its_own_layer(
+        repo, rep,
+        lambda repo, rep: _rule_m(repo, rep, tm),
+        lambda repo, rep: _rule_n(repo, rep, tm, xd, conv),
+        lambda repo, rep: _rule_o(repo, rep, tm, xd, conv),
+        lambda repo, rep: _rule_p(repo, rep, tm, conv),
+        lambda repo, rep: _rule_q(repo, rep, tm, xd),
+        lambda repo, rep: _rule_r(repo, rep, (tm, xd)),
+        lambda repo, rep: _rule_s(repo, rep, tm, xd, conv))
+
+
+# =====================================================================================================================
+# layer 4: rules t-x (an ill-typed literal has no value to compare or to re-lexicalise, bounded integer datatypes
+# reject what lies outside, the zero form of every duration value type, UTC offsets with seconds)
+# =====================================================================================================================
+from vlib import h_c09 as _H
+
+_COMPARISON_METHODS = ("eq", "neq", "__gt__", "__lt__", "__le__", "__ge__")
+
+
+# ------------------------------------------------------------------------------------------------------------- (t)
+def _rule_t(repo, rep, tm) -> None:
+    rid = "C09.t-value-compared-only-when-well-typed"
+    rep.rule(rid,
+             "in the value-space comparison methods of Literal (eq, neq, __gt__, __lt__, __le__, __ge__) and the private functions of the module they run, every return "
+             "statement whose result is computed from the Python value of an operand (`X.value`, directly or through a local bound to it) is reached only on paths on which "
+             "`X.ill_typed` was tested and found not true. What counts as tested: enclosing tests, earlier operands of an and/or, earlier `if ...: return` exits, single-assignment locals, "
+             "`bool(A.ill_typed) != bool(B.ill_typed)` exits, a call of a function of the package with X as receiver / argument whose truth value is known and every return "
+             "of which that can give that truth value has tested the flag of the parameter, and - inside a private function - what every call of it has established about "
+             "the argument. The converter of an ill-typed lexical form hands back some made-up value - Literal('yes', datatype=XSD.boolean).value is False - so without the "
+             "test 'yes'^^xsd:boolean eq 'false'^^xsd:boolean, and .eq(False), are True", floor=20)
+    lm = tm.methods("Literal")
+    if "eq" not in lm:
+        raise AnalysisError("Literal.eq vanished")
+    calls = _H.Calls(repo)
+    n_eq = 0
+    done: set[int] = set()
+    closures = {name: calls.private_closure(tm, "Literal." + name) for name in _COMPARISON_METHODS if name in lm}
+    # the paths of interest start at the comparison methods: inside a private function, what the calls from these functions establish
+    scope = {id(f) for fs in closures.values() for _, f in fs}
+    for name, fns in closures.items():
+        for q, f in fns:
+            if id(f) in done:
+                n_eq += name == "eq" and any(i["rule"] == rid and i["function"] == q for i in rep.instances)
+                continue
+            done.add(id(f))
+            rep.analysed("rdflib/term.py:" + q)
+            for r in own_nodes(f):
+                if not (isinstance(r, ast.Return) and r.value is not None):
+                    continue
+                reads = _H.value_read_nodes(f, r.value)
+                if not reads:
+                    continue
+                # (judged where the value is read: inside `A and not X.ill_typed and X.value ...` the read comes after the test)
+                for x in sorted({x for x, _ in reads}):
+                    n_eq += name == "eq"
+                    ok = all(x in calls.well_typed_at(tm, f, at, None, scope) for y, at in reads if y == x)
+                    rep.ob(rid, tm, q, "%s [value of %s]" % (norm(r), x), ok,
+                           "%s.ill_typed is known not to be true here" % x if ok else
+                           "the result is computed from %s.value on a path on which %s.ill_typed was not tested: an ill-typed literal is compared by the value its converter made up "
+                           "('yes'^^xsd:boolean has the value False, '300'^^xsd:byte the value 300)" % (x, x), node=r)
+    if not n_eq:
+        raise AnalysisError("Literal.eq: no return statement compares a value")
+
+
+# ------------------------------------------------------------------------------------------------------------- (u)
+def _rule_u(repo, rep, tm) -> None:
+    rid = "C09.u-relexicalisation-guarded-like-the-constructor"
+    rep.rule(rid,
+             "wherever a Python value that was READ FROM A LEXICAL FORM (the result of _castLexicalToPython, or `L.value` of a Literal L) is written back as a lexical form of the same "
+             "datatype (handed to _castPythonToLiteral, or to Literal(..., datatype=L.datatype)), the call is reached only where (1) the literal is known not to be ill-typed (`not L.ill_typed`, "
+             "or `not F` for a local F whose value becomes the `_ill_typed` flag of the literal under construction - stored into it, copied into such a local, or handed back to "
+             "the caller that stores it) and "
+             "(2) _value_is_approximate(<lexical form>, <value>) was tested false: an ill-typed form has no canonical form and a form that says more than the Python type holds "
+             "must be kept - else normalize() turns 'yes'^^xsd:boolean into 'false', '2000-01-01Z'^^xsd:date loses its time zone and a seventh fraction digit of a time is dropped; "
+             "the constructor and Literal.normalize are the two such places and must agree", floor=6)
+    sites = 0
+    calls_ = _H.Calls(repo)
+    for m in repo.modules.values():
+        for fq, fn in m.functions():
+            calls = []
+            for c in own_nodes(fn):
+                if not (isinstance(c, ast.Call) and c.args):
+                    continue
+                fname = norm(c.func).rsplit(".", 1)[-1]
+                if fname == "_castPythonToLiteral":
+                    calls.append((c, None))
+                elif fname == "Literal":
+                    dt = [k.value for k in c.keywords if k.arg == "datatype"]
+                    if dt and isinstance(dt[0], ast.Attribute) and dt[0].attr in ("datatype", "_datatype"):
+                        calls.append((c, norm(dt[0].value)))
+            if not calls:
+                continue
+            # the locals whose value ends up as the _ill_typed flag of the instance under construction (stored into it here, copied into
+            # such a local, or handed back to a caller that stores it)
+            flags = _H.ill_typed_flag_locals(calls_, m, fn, "<the lexical form>")
+            for c, dt_owner in calls:
+                a0 = c.args[0]
+                srcs = _H.reaching_values(m, fn, c, a0.id) if isinstance(a0, ast.Name) else [a0]
+                subjects: set[str] = set()
+                for sx in srcs:
+                    if isinstance(sx, ast.Call) and norm(sx.func).rsplit(".", 1)[-1] == "_castLexicalToPython":
+                        subjects.add("<the lexical form>")
+                    elif isinstance(sx, ast.Attribute) and sx.attr in ("value", "_value"):
+                        tf = repo.typed.type_of(m.name, sx.value)
+                        if tf is not None and any(i == "rdflib.term.Literal" for i in tf.items) and (dt_owner is None or dt_owner == norm(sx.value)):
+                            subjects.add(norm(sx.value))
+                if not subjects:
+                    continue  # a Python object given by the caller: nothing was read from a lexical form
+                sites += 1
+                rep.analysed("%s:%s" % (m.rel, fq))
+                facts = _H.facts_at(m, fn, c)
+                wt = calls_.well_typed_at(m, fn, c, flags)
+                approx = False
+                for e, pol in facts:
+                    if not pol and isinstance(e, ast.Call) and norm(e.func).rsplit(".", 1)[-1] == "_value_is_approximate" and len(e.args) == 2:
+                        v = e.args[1]
+                        if norm(v) == norm(a0) or (isinstance(v, ast.Attribute) and v.attr in ("value", "_value") and norm(v.value) in subjects) \
+                                or (isinstance(v, ast.Name) and isinstance(a0, ast.Name) and any(sx is not None and norm(sx) == norm(d) for sx in srcs for d in _H.defs_of(fn, v.id) if d is not None)):
+                            approx = True
+                for sj in sorted(subjects):
+                    ok = sj in wt
+                    rep.ob(rid, m, fq, "%s [%s not ill-typed]" % (norm(c)[:90], sj), ok,
+                           "guarded" if ok else "the value read from %s is written back as a lexical form on a path on which its ill-typed flag was not tested: an ill-typed literal is "
+                           "replaced by the form of the value its converter made up (Literal('yes', datatype=XSD.boolean, normalize=False).normalize() is 'false')" % sj, node=c)
+                rep.ob(rid, m, fq, "%s [value not approximate]" % norm(c)[:90], approx,
+                       "guarded" if approx else "no `not _value_is_approximate(<lexical form>, %s)` holds here: a form that says more than the Python value ('2000-01-01Z'^^xsd:date, "
+                       "'12:00:00.0000001'^^xsd:time) is replaced by the form of the narrower value" % norm(a0), node=c)
+    if not sites:
+        raise AnalysisError("no re-lexicalisation site (_castPythonToLiteral / Literal(L.value, datatype=L.datatype)) found")
+
+
+# ------------------------------------------------------------------------------------------------------------- (v)
+def _rule_v(repo, rep, tm, conv) -> None:
+    rid = "C09.v-bounded-integer-datatype-rejects-outside"
+    rep.rule(rid,
+             "every integer-derived datatype with a converter in XSDToPython whose XSD value space is bounded (xsd:long, int, short, byte, their unsigned variants, "
+             "non/Positive/Negative-Integer) has a checker registered in _check_well_formed_types - the fallback _well_formed_by_value accepts every value - and that checker, "
+             "evaluated by constant folding of its comparison chain, REJECTS the integers next to each bound: else '9223372036854775808'^^xsd:long and "
+             "'18446744073709551616'^^xsd:unsignedLong are taken for well-typed and normalised (counterpart of rule f, which checks that the bounds themselves are accepted)", floor=20)
+    wf = _table(tm, "_check_well_formed_types")
+    if not isinstance(wf, ast.Dict):
+        raise AnalysisError("_check_well_formed_types is not a dict display")
+    checker = {_local(tm, k): v for k, v in zip(wf.keys, wf.values)}
+    int_types = {k for k, v in STD.items() if v is int}
+    for d, (lo, hi) in sorted(XSD_INT_BOUNDS.items()):
+        if d not in conv or (lo is None and hi is None):
+            continue
+        if conv[d] not in int_types:
+            raise AnalysisError("xsd:%s is not read by an integer converter (%s)" % (d, conv[d]))
+        outside = ([lo - 1] if lo is not None else []) + ([hi + 1] if hi is not None else [])
+        ck = checker.get(d)
+        if ck is None:
+            for pt in outside:
+                rep.ob(rid, tm, "_check_well_formed_types", "xsd:%s rejects %d" % (d, pt), False,
+                       "no checker is registered for xsd:%s, so the fallback (a value could be made) decides: %d, outside the value space, is well-typed" % (d, pt), node=wf)
+            continue
+        fname = norm(ck)
+        if not (tm.has(fname) and isinstance(tm.defs[fname], ast.FunctionDef)):
+            raise AnalysisError("checker %s of xsd:%s is not a function of term.py" % (fname, d))
+        f = tm.defs[fname]
+        rets = [r for r in own_nodes(f) if isinstance(r, ast.Return) and r.value is not None]
+        if len(rets) != 1 or len(f.args.args) < 2:
+            raise AnalysisError("checker %s: unmodelled shape" % fname)
+        rep.analysed("rdflib/term.py:" + fname)
+        for pt in outside:
+            a = _accepts(rets[0].value, f.args.args[1].arg, pt, int_types)
+            if a is None:
+                raise AnalysisError("checker %s: cannot decide whether it accepts %d" % (fname, pt))
+            rep.ob(rid, tm, fname, "xsd:%s rejects %d" % (d, pt), not a,
+                   "outside the value space and rejected" if not a else "%d is outside the value space of xsd:%s (%s .. %s) but the checker accepts it: the literal is not flagged ill-typed "
+                   "and is normalised" % (pt, d, lo if lo is not None else "-inf", hi if hi is not None else "inf"), node=rets[0])
+
+
+# ------------------------------------------------------------------------------------------------------------- (x)
+def _rule_x(repo, rep, tm, xd) -> None:
+    rid = "C09.x-utc-offset-inspected-before-isoformat"
+    rep.rule(rid,
+             "isoformat() of the Python types that carry a UTC offset (those with a utcoffset() method: datetime, time - a fact of the standard library) writes the offset with its "
+             "seconds when it has any ('+00:19:32', a local mean time), and an XSD time zone is (+|-)hh:mm only. So in every Python->XSD lexicaliser registered for such a type "
+             "(generic and datatype-specific rules, through the functions of term.py / xsd_datetime.py it calls) each isoformat() call is reached only through a test that reads the "
+             "value's utcoffset() / tzinfo (a branch that can treat such a value differently): else Literal(datetime(..., tzinfo=<offset 0:19:32>)) has a lexical form that is no "
+             "xsd:dateTime and is ill-typed when read back", floor=2)
+    lexers: list[tuple[str, str, ast.AST]] = []
+    gen, spec = _table(tm, "_GenericPythonToXSDRules"), _table(tm, "_SpecificPythonToXSDRules")
+    if not isinstance(gen, ast.List) or not isinstance(spec, ast.List):
+        raise AnalysisError("rule tables are not list displays")
+    for e in gen.elts:
+        if isinstance(e, ast.Tuple) and len(e.elts) == 2 and isinstance(e.elts[1], ast.Tuple) and len(e.elts[1].elts) == 2:
+            lexers.append((norm(e.elts[0]), _local(tm, e.elts[1].elts[1]), e.elts[1].elts[0]))
+    for e in spec.elts:
+        if isinstance(e, ast.Tuple) and len(e.elts) == 2 and isinstance(e.elts[0], ast.Tuple) and len(e.elts[0].elts) == 2:
+            lexers.append((norm(e.elts[0].elts[0]), _local(tm, e.elts[0].elts[1]), e.elts[1]))
+
+    def fn_named(name):
+        for m in (tm, xd):
+            if m.has(name) and isinstance(m.defs[name], ast.FunctionDef):
+                return m, m.defs[name]
+        return None, None
+
+    def reads_offset(fn, e, depth=0) -> bool:
+        for n in ast.walk(e):
+            if isinstance(n, ast.Attribute) and n.attr in ("utcoffset", "tzinfo"):
+                return True
+            if isinstance(n, ast.Name) and isinstance(n.ctx, ast.Load) and depth < 2 and not isinstance(fn, ast.Lambda):
+                if any(d is not None and reads_offset(fn, d, depth + 1) for d in _H.defs_of(fn, n.id)):
+                    return True
+        return False
+
+    found = 0
+    for t, d, lx in lexers:
+        cls = STD.get(t.rsplit(".", 1)[-1])
+        if cls is None or not hasattr(cls, "utcoffset"):
+            continue
+        work = []
+        if isinstance(lx, ast.Lambda):
+            work.append((tm, lx))
+        elif isinstance(lx, ast.Name):
+            m, f = fn_named(lx.id)
+            if f is None:
+                raise AnalysisError("lexicaliser %s of %s not found" % (lx.id, t))
+            work.append((m, f))
+        seen: set[str] = set()
+        while work:
+            m, f = work.pop()
+            g = None if isinstance(f, ast.Lambda) else CFG(f)
+            body_nodes = list(ast.walk(f.body)) if isinstance(f, ast.Lambda) else list(own_nodes(f))
+            for n in body_nodes:
+                if isinstance(n, ast.Call) and isinstance(n.func, ast.Name) and n.func.id not in seen:
+                    seen.add(n.func.id)
+                    m2, f2 = fn_named(n.func.id)
+                    if f2 is not None:
+                        work.append((m2, f2))
+                if not (isinstance(n, ast.Call) and isinstance(n.func, ast.Attribute) and n.func.attr == "isoformat"):
+                    continue
+                found += 1
+                # conditional expressions / and-or operands around the call
+                ok = any(reads_offset(f, e) for e, _ in _H.facts_at(m, f, n)) if not isinstance(f, ast.Lambda) else False
+                if isinstance(f, ast.Lambda):
+                    child = n
+                    for p in m.parents(n):
+                        if isinstance(p, ast.IfExp) and child is not p.test and reads_offset(f, p.test):
+                            ok = True
+                        if p is f:
+                            break
+                        child = p
+                elif not ok:
+                    tests = [g.by_ast[id(s)] for s in own_nodes(f) if isinstance(s, (ast.If, ast.While)) and id(s) in g.by_ast and reads_offset(f, s.test)]
+                    ok = bool(tests) and g.must_pass_before(_stmt_of(m, g, n), tests)
+                where = f.name if isinstance(f, ast.FunctionDef) else "_GenericPythonToXSDRules"
+                rep.ob(rid, m, where, "%s -> xsd:%s: %s" % (t, d, norm(n)), ok,
+                       "the offset is inspected first" if ok else
+                       "%s is written by a bare isoformat(): a %s whose UTC offset has seconds (tzinfo=timezone(timedelta(minutes=19, seconds=32))) gets the lexical form "
+                       "'...+00:19:32', which is outside the lexical space of xsd:%s - ill-typed when read back" % (t, t, d), node=n)
+    if not found:
+        raise AnalysisError("no isoformat() call reachable from the lexicalisers of datetime / time")
+
+
+_run_base4 = run
+
+
+def run(repo: Repo, rep: Report) -> None:  # noqa: F811
+    _layer(rep, _run_base4, repo)
+    rep.extra["explanation"] = rep.extra.get("explanation", "") + (
+        " (t) value-space comparisons read an operand's value only where it is known not to be ill-typed; (u) a value read from a lexical form is re-lexicalised only for a "
+        "well-typed literal whose value is not approximate, in the constructor and in normalize() alike; (v) the checker of every bounded integer datatype rejects the integers "
+        "next to its bounds; (w) the zero duration is written inside the lexical space for every Python type the duration converter yields; (x) lexicalisers of offset-carrying "
+        "types inspect the UTC offset before isoformat().")
+    tm = repo.mod("rdflib.term")
+    xd = repo.mod("rdflib.xsd_datetime")
+    conv = _conv_table(tm)
+    _each_in_its_own_layer(
+        repo, rep,
+        lambda repo, rep: _rule_t(repo, rep, tm),
+        lambda repo, rep: _rule_u(repo, rep, tm),
+        lambda repo, rep: _rule_v(repo, rep, tm, conv),
+        lambda repo, rep: _rule_w(repo, rep, tm, xd, conv),
+        lambda repo, rep: _rule_x(repo, rep, tm, xd))
+
+
+def _rule_w(repo, rep, tm, xd, conv) -> None:
+    _rule_o(repo, rep, tm, xd, conv, rid="C09.w-zero-form-of-every-duration-value-type", floor=5, other_types=True, text=(
+        "as rule o, for the OTHER Python types the converter of the duration datatypes yields (CONVERTER_RESULT of parse_xsd_duration: a Duration besides the timedelta it builds "
+        "for a duration without years and months - such values come from arithmetic, e.g. the difference of two equal xsd:yearMonthDuration literals, and from the caller): the "
+        "lexicaliser that _castPythonToLiteral selects for (type, datatype) writes the zero duration inside the lexical space of the datatype - Literal(Duration(), "
+        "datatype=XSD.yearMonthDuration) must not be 'P0D'"))
